@@ -19,6 +19,11 @@ Grammar accepted (everything else: exit 3 and "REJECT: <source>:<line>: <why>"):
   type     := path [ `<` type,* `>` ] | `(` type,* `)`
   comments (`//`, `///`, `/* */`) are skipped.
 
+Besides the items, `msg_hints : list (string * string)` = (method, candidate struct name) for every request / notification of
+generator/lsp.json WITHOUT typeName (optional in lsp.schema.json).  The candidate is computed here, independently of the plugin
+(derived_msg_name).  It is an UNTRUSTED hint: LSP.Rust.rust_ok only looks the struct up under that name and checks everything on
+the item found (and that no two messages share a struct); a wrong hint makes the check fail, never pass.
+
 usage: x_rs.py <out.v> <info.json>      exit 0 ok | 3 REJECT | 4 the generator itself failed
 """
 import json
@@ -526,7 +531,39 @@ def item_term(it):
     return "RAlias %s %s %s" % (q(it["name"]), b(it["gated"]), rty(it["target"]))
 
 
-def emit(lists):
+# ---------------------------------------------------------------------------------------------- message-name hints
+def derived_msg_name(method, suffix):
+    """Candidate struct name of a message without typeName: strip a leading "$/", split on "/", "_" and whitespace and at every
+    lower-case-or-digit -> upper-case boundary, capitalise each part (first character upper, rest lower), join, and append the
+    suffix ("Request" / "Notification") unless the name already ends with it.  Own implementation (the plugin is not imported)."""
+    name = method[2:] if method.startswith("$/") else method
+    parts, cur = [], ""
+    for ch in name:
+        if ch in "/_" or ch.isspace():
+            if cur:
+                parts.append(cur)
+            cur = ""
+            continue
+        if cur and "A" <= ch <= "Z" and ("a" <= cur[-1] <= "z" or "0" <= cur[-1] <= "9"):
+            parts.append(cur)
+            cur = ""
+        cur += ch
+    if cur:
+        parts.append(cur)
+    s = "".join(p[:1].upper() + p[1:].lower() for p in parts)
+    return s if s.endswith(suffix) else s + suffix
+
+
+def msg_hints(doc):
+    hints = []
+    for kind, suffix in (("requests", "Request"), ("notifications", "Notification")):
+        for m in doc.get(kind, []):
+            if not m.get("typeName") and isinstance(m.get("method"), str):
+                hints.append((m["method"], derived_msg_name(m["method"], suffix)))
+    return hints
+
+
+def emit(lists, hints=()):
     """One Definition per item.  An item of a later list whose Coq term is textually identical to an already emitted one is
     defined as that constant (same text, same term): the committed file normally equals the fresh output, which halves coqc time."""
     out = ["(* generated by lib/x_rs.py — do not edit *)", "From LSP Require Import Base MM Rust.", "Open Scope string_scope."]
@@ -543,6 +580,7 @@ def emit(lists):
                 seen[term] = nm
             names.append(nm)
         out.append("Definition %s : list ritem := [%s]." % (lname, "; ".join(names)))
+    out.append("Definition msg_hints : list (string * string) := [%s]." % "; ".join("(%s, %s)" % (q(m), q(n)) for m, n in hints))
     return "\n".join(out) + "\n"
 
 
@@ -616,9 +654,15 @@ def main(out_v, info_path):
         raise Reject("committed: packages/rust/lsprotocol/src/lib.rs does not exist")
     com_src = open(com_path, encoding="utf-8").read()
     com_items = parse(com_src, "committed")
-    V.write_if_changed(out_v, emit([("g", "generated_items", gen_items), ("c", "committed_items", com_items)]))
+    mm_path = os.path.join(V.REPO, "generator", "lsp.json")
+    try:
+        hints = msg_hints(json.load(open(mm_path, encoding="utf-8")))
+    except (OSError, ValueError, AttributeError, TypeError) as e:
+        raise Reject("generator/lsp.json cannot be read for the message-name hints: %r" % (e,))
+    V.write_if_changed(out_v, emit([("g", "generated_items", gen_items), ("c", "committed_items", com_items)], hints))
     info.update({"generated": {"source": gen_name, "path": GEN_COPY, "counts": counts(gen_items), "items": gen_items},
                  "committed": {"source": "committed", "path": com_path, "counts": counts(com_items), "items": com_items},
+                 "msg_hints": [list(h) for h in hints],
                  "generated_equals_committed_items": strip_lines(gen_items) == strip_lines(com_items),
                  "generated_text_equals_committed_text": gen_src == com_src})
     V.write_if_changed(info_path, json.dumps(info, indent=0, sort_keys=True) + "\n")
